@@ -2,7 +2,6 @@ package main
 
 import (
 	"go/ast"
-	"strings"
 )
 
 func init() { extractors["C13"] = extractC13 }
@@ -27,7 +26,10 @@ func extractC13(repo string, o *Out) {
 		}
 		o.zlStrList("cmp"+m, zlComparisons(p, fd), "comparisons of "+m+" in source order")
 	}
-	// every call of the eviction callback: enclosing function and argument expressions
+	// every call of the eviction callback (any `<x>.onEvicted(...)`): enclosing function and the call expression,
+	// printed from the alpha-normalised declaration (receiver _r, parameters _p0, …, locals _v0, … by order of
+	// declaration among the locals the call mentions), so that names chosen inside the function do not matter and a
+	// different or swapped argument does
 	var calls []string
 	for _, f := range p.Files {
 		for _, d := range f.Decls {
@@ -35,16 +37,21 @@ func extractC13(repo string, o *Out) {
 			if !ok || fd.Body == nil {
 				continue
 			}
-			for _, c := range p.Calls(fd, "c.onEvicted") {
-				args := make([]string, len(c.Args))
-				for i, a := range c.Args {
-					args[i] = strings.Join(strings.Fields(p.Src(a)), " ")
+			restore := p.normalise(fd)
+			ast.Inspect(fd, func(n ast.Node) bool {
+				c, ok := n.(*ast.CallExpr)
+				if !ok {
+					return true
 				}
-				calls = append(calls, fd.Name.Name+": "+strings.Join(args, ", "))
-			}
+				if sel, ok := c.Fun.(*ast.SelectorExpr); ok && sel.Sel.Name == "onEvicted" {
+					calls = append(calls, fd.Name.Name+": "+p.fragments([]ast.Node{c})[0])
+				}
+				return true
+			})
+			restore()
 		}
 	}
-	o.zlStrList("callbackCalls", calls, "calls of c.onEvicted: enclosing function and arguments")
+	o.zlStrList("callbackCalls", calls, "calls of the eviction callback: enclosing function and the call, alpha-normalised (_r receiver, _pN parameters, _vN locals)")
 	keyType := "?"
 	if fd := p.Func("Cache", "Remove"); fd != nil && len(fd.Type.Params.List) == 1 {
 		keyType = p.Src(fd.Type.Params.List[0].Type)
